@@ -722,7 +722,11 @@ _T3 = [
 _T3 += [_tap_job("tap-003", p, 5, 1500, n_acc=2, n_acl=2) for p in range(4, 14)]  # MANIPULATION 5-8, EXPLOIT 9-12
 _T3 += [_tap_job("tap-003", p, 5, 1500, n_acc=0, n_acl=2) for p in range(3, 9)]  # no account changes
 _T1 = [_tap_job("tap-001", p, 4 if 5 <= p <= 9 else 5, 1500, **f) for p in range(0, 17) for f in (_FLAGS if p >= 3 else [{}])]
-_TU = [_tap_job(k, 0, 10, 1500, unit=True, n_acc=a, **f) for k, a in (("tap-003", 0), ("tap-003", 1), ("tap-001", 1)) for f in _FLAGS]
+_TU = [
+    _tap_job(k, 0, 9 if (k == "tap-001" and f["rks"]) else 10, 1500, unit=True, n_acc=a, **f)  # T=10 there: > 1500 s
+    for k, a in (("tap-003", 0), ("tap-003", 1), ("tap-001", 1))
+    for f in _FLAGS
+]
 HARNESSES["tap_run"] = {
     "fn": tap_run,
     "quick": _Q3 + _Q1,
@@ -735,7 +739,7 @@ HARNESSES["tap_run"] = {
         "results per step solver-chosen; 1 account change, 1 malicious ACL, 2 network addresses, 0 or 2 start nodes",
         "thorough": "tap-003: windows of 6 steps (5 for steps 5-7 with stage repetition on) from every step 0-8 (split on the repeat flags), windows of 5 steps with "
         "2 account changes + 2 ACLs (steps 4-13) and with no account change; tap-001: windows of 5 steps (4 inside "
-        "PROPAGATE) from every step 0-16, split on the repeat flags; plus 10 steps from construction with unit timing",
+        "PROPAGATE) from every step 0-16, split on the repeat flags; plus 10 steps (tap-001 with stage repetition on: 9) from construction with unit timing",
     },
 }
 HARNESSES["tap_prob_zero"] = HARNESSES_TAP_ZERO
